@@ -1,7 +1,8 @@
-"""C19 — dictionary edits act as documented (library part); WordWeightRecord length check.
+"""C19 — dictionary edits act as documented; dump and replace through the model tool are lossless; WordWeightRecord length check.
 
-Decided: Model::replace_dictionary / Model::dictionary / WordWeightRecord::new and the score delta through the
-real predictor.  Not decided here (stated in the manifest): the manipulate_model CSV/zstd round trip.
+Decided: Model::replace_dictionary / Model::dictionary / WordWeightRecord::new and the score delta through the real predictor (library part);
+main() of manipulate_model (--dump-dict, then --replace-dict with the unmodified dump) over a contract model of the csv crate (m_csv.py: csv-core's
+writer quoting rules and reader NFA, validated against the real crate) and zstd as identity on the model stream.
 """
 import z3
 
@@ -13,7 +14,8 @@ import predlib as P
 from models.m_core import values_eq
 
 ID = 'C19'
-PROGRAMS = {'core': dict(crate='vaporetto', features=['train', 'kytea'])}
+PROGRAMS = {'core': dict(crate='vaporetto', features=['train', 'kytea']),
+            'tool': dict(crate='manipulate_model', target='bin', bin_name='manipulate_model', extra=[dict(crate='vaporetto')])}
 UNIT_CAP = 200
 BUDGET_S = {'quick': 200, 'thorough': 1800}
 
@@ -27,17 +29,32 @@ EDITS = {
 }
 BOUNDS = {
     'quick': {'edits': sorted(EDITS), 'text_chars': '1..3', 'weights': 'old and new dictionary weights: every signed 16-bit value',
-              'record check': 'words of 0..3 symbolic characters x 0..5 weights'},
-    'thorough': {'edits': sorted(EDITS), 'text_chars': '1..5', 'weights': 'signed 16-bit', 'record check': 'words of 0..4 symbolic characters x 0..6 weights'},
+              'record check': 'words of 0..3 symbolic characters x 0..5 weights',
+              'model tool': 'dictionaries of 1 word (0..2 characters, comment 0..1 characters) and 2 words (1 character each) over {comma, quote, #, space, LF, CR, a, あ, '
+                            'any other scalar value (symbolic)}; weights from four patterns incl. i32::MIN/MAX; hand-written CSV records with 1..2-character words and '
+                            '1..4 weights (mismatching) or an unparsable weight'},
+    'thorough': {'edits': sorted(EDITS), 'text_chars': '1..5', 'weights': 'signed 16-bit', 'record check': 'words of 0..4 symbolic characters x 0..6 weights',
+                 'model tool': 'as quick plus 1 word of 2 characters with a comment and 2 words of 2 characters'},
 }
-OUTSIDE = ('the manipulate_model tool (CSV quoting by the csv crate, zstd, serde) is NOT decided: its correctness lives in third-party crates; '
-           'edits outside the catalogue; longer texts; 32-bit dictionary weights (sums are kept inside i32 by the i16 bound)')
+OUTSIDE = ('the csv crate itself is replaced by a contract model (writer: QuoteStyle::Necessary of csv-core; reader: transcription of csv-core 0.1.13\'s NFA with the '
+           'ReaderBuilder options the code sets; serde maps flat String structs by header name) and zstd by the identity on the model stream: defects inside those '
+           'crates, clap parsing, real files and compression are not decided; dictionaries of more than two words, words longer than two characters; '
+           'edits outside the catalogue; longer texts; 32-bit dictionary weights in the score-delta clause (sums are kept inside i32 by the i16 bound)')
 EXPLANATION = ('Model::replace_dictionary, Model::dictionary, WordWeightRecord::new and two predictors (before/after the edit) are executed symbolically '
                '(MIR) in one path on the same symbolic text; z3 decides that the score difference at every boundary equals the sum over occurrences of '
                '(new - old) dictionary weights, that every other model field is unchanged, that dictionary() returns exactly the records that were set, '
-               'and that a record is accepted iff it has one weight per boundary of the word.')
-ASSUMPTIONS = ['daachorse contract model', 'std container models of mirsym', 'dictionary weights within i16 for the score-delta clause']
-MUST_REACH = ['score delta equals the dictionary weight difference', 'other model fields unchanged', 'record accepted iff one weight per boundary']
+               'and that a record is accepted iff it has one weight per boundary of the word.  main() of manipulate_model (MIR of the bin crate) is executed '
+               'twice in one path over an in-memory file system: --dump-dict, then --replace-dict with the unmodified dump and --model-out; z3/structural reasoning '
+               'decides that the written model stream equals the input stream element by element for CSV-hostile symbolic words and comments, and that a CSV record '
+               'with a mismatching weight count (or an unparsable weight) makes the tool fail without writing a model.')
+ASSUMPTIONS = ['daachorse contract model', 'std container models of mirsym', 'dictionary weights within i16 for the score-delta clause',
+               'csv crate contract model (validated against the real crate on hostile records)', 'zstd encoder/decoder are inverse (identity on the stream)',
+               'clap delivers the paths as given; the file system is an in-memory map']
+MUST_REACH = ['score delta equals the dictionary weight difference', 'other model fields unchanged', 'record accepted iff one weight per boundary',
+              'dump then replace reproduces the model', 'tool exits successfully', 'mismatching record is rejected by the tool']
+
+TOOL_CLASSES = ',"# \n\raあ'        # CSV-hostile characters; plus "any other scalar value" (symbolic)
+WEIGHT_PATTERNS = [[0, 0, 0], [-1, 5, -32768], [2147483647, -2147483648, 7], [10, -10, 1]]
 
 
 def jobs(tier, seed):
@@ -48,6 +65,19 @@ def jobs(tier, seed):
     for nch in range(0, (3 if tier == 'quick' else 4) + 1):
         for nw in range(0, (5 if tier == 'quick' else 6) + 1):
             js.append({'name': 'record/%d/%d' % (nch, nw), 'kind': 'record', 'nch': nch, 'nw': nw})
+    # the model tool: dump the dictionary, replace it with the unmodified dump
+    for nwords in (1, 2):
+        for wl in ((0, 1, 2) if nwords == 1 else (1,)):
+            for cl in ((0, 1) if nwords == 1 and wl < 2 else (0,)):
+                js.append({'name': 'tool/w%d/l%d/c%d' % (nwords, wl, cl), 'kind': 'tool', 'prog': 'tool', 'nwords': nwords, 'wl': wl, 'cl': cl})
+    if tier != 'quick':
+        js.append({'name': 'tool/w1/l2/c1', 'kind': 'tool', 'prog': 'tool', 'nwords': 1, 'wl': 2, 'cl': 1})
+        js.append({'name': 'tool/w2/l2/c0', 'kind': 'tool', 'prog': 'tool', 'nwords': 2, 'wl': 2, 'cl': 0})
+    for nch in (1, 2):
+        for nw in (1, 2, 3, 4):
+            if nw != nch + 1:
+                js.append({'name': 'tool-bad/%d/%d' % (nch, nw), 'kind': 'tool-bad', 'prog': 'tool', 'nch': nch, 'nw': nw})
+    js.append({'name': 'tool-bad/unparsable', 'kind': 'tool-bad', 'prog': 'tool', 'nch': 1, 'nw': 2, 'garbage': True})
     return js
 
 
@@ -94,9 +124,106 @@ def build_pair(e, prog, shape, new_words):
     return ms, new, Cell(p1.f[0].v), Cell(p2.f[0].v), same, okd
 
 
+TOOL_SHAPE = {'cw': 1, 'tw': 1, 'char': ['a']}
+
+
+def tool_args(prog, model_in, model_out=None, dump=None, replace=None):
+    def path(n):
+        return Opaque('path', rt='PathBuf', name=n)
+
+    def opt(n):
+        return none() if n is None else some(path(n))
+    return P.mk_struct(prog, 'Args', model_in=path(model_in), model_out=opt(model_out), dump_dict=opt(dump), replace_dict=opt(replace), zstd_workers=Int(0, 32))
+
+
+def tool_model(e, prog, records):
+    """serialised model stream whose dictionary holds `records` = [(word Str, [weights python ints], comment Str)]"""
+    ms = P.fill_model(e, TOOL_SHAPE, concrete={'c0_0': 3, 'c0_1': -2, 'bias': 1})
+    model = P.build_model(e, prog, ms)
+    md = model.f[0].v
+    recs = []
+    for word, ws, comment in records:
+        recs.append(P.mk_struct(prog, 'WordWeightRecord', word=word, weights=P.vec_i32([Int(w & 0xFFFFFFFF, 32, True) for w in ws]), comment=comment))
+    hlib.field(md, 'dict_model').v = P.mk_tuple_struct('DictModel', Seq(recs))
+    r = S.call(e, prog, 'Model', 'to_vec', [Ref(Cell(model))])
+    if r.var != 'Ok':
+        raise Panic('Model::to_vec failed on a well-formed model')
+    from models.m_seq import seq_values
+    return list(seq_values(r.f[0].v))
+
+
+def make_tool(e, progs, job, st):
+    prog = progs['tool']
+    import C07_harness
+
+    def harness(e):
+        if job['kind'] == 'tool':
+            recs = []; syms = []
+            for k in range(job['nwords']):
+                w = S.sym_string(e, 'w%d_' % k, job['wl'], TOOL_CLASSES, exclude='\0')
+                c = S.sym_string(e, 'c%d_' % k, job['cl'], TOOL_CLASSES, exclude='\0')
+                pat = WEIGHT_PATTERNS[e.choose(len(WEIGHT_PATTERNS))][:job['wl'] + 1]
+                recs.append((hlib.build_str(e, w.chars), pat, hlib.build_str(e, c.chars)))
+                syms.append((w, pat, c))
+            st['recs'] = syms
+            stream = tool_model(e, prog, recs)
+            files = {'A': list(stream)}
+            e.cli = {'files': files}
+            e.cli['args'] = tool_args(prog, 'A', dump='D')
+            r1 = e.call('main', [])
+            e.check(r1.var == 'Ok', 'tool exits successfully')
+            if r1.var != 'Ok':
+                return
+            st['csv'] = list(files.get('D', []))
+            e.cli['args'] = tool_args(prog, 'A', model_out='B', replace='D')
+            r2 = e.call('main', [])
+            e.check(r2.var == 'Ok', 'tool exits successfully')
+            if r2.var != 'Ok':
+                return
+            e.check('B' in files and C07_harness.elems_equal(e, files['B'], stream), 'dump then replace reproduces the model')
+        else:
+            w = S.sym_string(e, 'w', job['nch'], 'aあ', exclude='\0,"\n\r')
+            st['recs'] = [(w, list(range(1, job['nw'] + 1)), None)]
+            stream = tool_model(e, prog, [])
+            wb = list(hlib.build_str(e, w.chars).b)
+            wtxt = 'x 1' if job.get('garbage') else ' '.join(str(x) for x in range(1, job['nw'] + 1))
+            csvb = [Int(x, 8) for x in b'word,weights,comment\n'] + wb + [Int(x, 8) for x in (',' + wtxt + ',\n').encode()]
+            st['csv'] = csvb
+            files = {'A': list(stream), 'D': csvb}
+            e.cli = {'files': files, 'args': tool_args(prog, 'A', model_out='B', replace='D')}
+            r = e.call('main', [])
+            e.check(r.var == 'Err' and 'B' not in files, 'mismatching record is rejected by the tool')
+
+    def describe(m):
+        recs = []
+        for w, pat, c in st.get('recs', []):
+            recs.append([w.py(m), ' '.join(str(x) for x in pat), c.py(m) if c is not None else ''])
+        csvt = None
+        if st.get('csv') is not None:
+            try:
+                csvt = hlib.py_bytes(e, st['csv'], m).decode('utf-8', 'replace')
+            except Exception:
+                csvt = None
+        mj = P.model_json(P.fill_model(e, TOOL_SHAPE, concrete={'c0_0': 3, 'c0_1': -2, 'bias': 1}), None)
+        if job['kind'] == 'tool':
+            mj['dict'] = [{'word': w_, 'weights': [int(x) for x in ws_.split(' ')], 'comment': c_} for w_, ws_, c_ in recs]
+        return {'property': ID, 'job': job, 'records': recs, 'engine_csv': csvt, 'model': mj,
+                'ops': [{'op': 'model', 'id': 'm', 'data': mj}, {'op': 'model_dump', 'model': 'm'}]}
+
+    def sample():
+        if e.solver is None or 'recs' not in st or e._check() != z3.sat:
+            return None
+        m = e.solver.model()
+        return {'job': job['name'], 'words': [w.py(m) for w, _, _ in st['recs']]}
+    e.sample = sample
+    return harness, describe
+
+
 def make(e, progs, job):
-    prog = progs['core']
     st = {}
+    if job['kind'] in ('tool', 'tool-bad'):
+        return make_tool(e, progs, job, st)
+    prog = progs['core']
 
     def harness_edit(e):
         shape, new_words = EDITS[job['edit']]
@@ -174,7 +301,46 @@ def role(v):
     return '%s:%s' % (msg, job.get('edit', job.get('kind')))
 
 
+def confirm_tool(sc, replay):
+    """the real manipulate_model binary on real files (zstd frames written/decoded outside the tool)"""
+    import os, shutil, subprocess, tempfile
+    import C20_harness
+    job = sc['job']
+    res = replay.run(sc['ops'])
+    data = bytes(res[-1]['bytes'])
+    exe = C20_harness.build_cli('manipulate_model')
+    d = tempfile.mkdtemp(prefix='vpverif-mm.', dir='/var/tmp')
+    try:
+        a = os.path.join(d, 'a.zst'); b = os.path.join(d, 'b.zst'); dd = os.path.join(d, 'dict.csv')
+        open(a, 'wb').write(C20_harness.zstd_raw_frame(data))
+        bad = []
+        if job['kind'] == 'tool':
+            p1 = subprocess.run([exe, '--model-in', a, '--dump-dict', dd], stdout=subprocess.PIPE, stderr=subprocess.PIPE, timeout=60)
+            if p1.returncode != 0:
+                return True, {'native_violations': ['--dump-dict failed: ' + p1.stderr.decode('utf-8', 'replace')[-300:]]}
+        else:
+            open(dd, 'wb').write((sc.get('engine_csv') or '').encode('utf-8'))
+        p2 = subprocess.run([exe, '--model-in', a, '--replace-dict', dd, '--model-out', b], stdout=subprocess.PIPE, stderr=subprocess.PIPE, timeout=60)
+        if job['kind'] == 'tool-bad':
+            if p2.returncode == 0:
+                bad.append('a record whose weight count does not match the word length was accepted')
+            return bool(bad), {'native_violations': bad, 'stderr': p2.stderr.decode('utf-8', 'replace')[-200:]}
+        if p2.returncode != 0:
+            return True, {'native_violations': ['--replace-dict with the unmodified dump failed: ' + p2.stderr.decode('utf-8', 'replace')[-300:]],
+                          'csv': open(dd, 'rb').read().decode('utf-8', 'replace')}
+        out = replay.run([{'op': 'zstd_decode', 'bytes': list(open(b, 'rb').read())}])[0]
+        if 'bytes' not in out:
+            return False, {'native': out}
+        if bytes(out['bytes']) != data:
+            bad.append('the model written after replacing the dictionary with its own dump differs from the input model (%d vs %d bytes)' % (len(out['bytes']), len(data)))
+        return bool(bad), {'native_violations': bad, 'csv': open(dd, 'rb').read().decode('utf-8', 'replace')}
+    finally:
+        shutil.rmtree(d, ignore_errors=True)
+
+
 def confirm(sc, replay):
+    if sc['job']['kind'] in ('tool', 'tool-bad'):
+        return confirm_tool(sc, replay)
     res = replay.run(sc['ops'])
     job = sc['job']
     if job['kind'] == 'record':
@@ -188,3 +354,69 @@ def confirm(sc, replay):
     w1 = P.concrete_scores(sc['model_old'], sc['text']); w2 = P.concrete_scores(sc['model_new'], sc['text'])
     bad = [b - a for a, b in zip(s1, s2)] != [b - a for a, b in zip(w1, w2)]
     return bad, {'native_delta': [b - a for a, b in zip(s1, s2)], 'oracle_delta': [b - a for a, b in zip(w1, w2)]}
+
+
+# ---------------------------------------------------------------------------------------------
+# engine / model validation
+def validation_cases(tier, seed):
+    """(a) the csv contract model against the real csv crate on hostile records and hostile raw inputs; (b) main() of the tool executed in the engine on
+    concrete dictionaries against the real binary"""
+    import random
+    rnd = random.Random(seed + 1909)
+    pool = [',', '"', '#', ' ', '\n', '\r', 'a', 'あ', 'b', '\t', '\\', "'", '𠀋']
+    cs = []
+    for k in range(24 if tier == 'quick' else 120):
+        recs = []
+        for _ in range(rnd.randint(1, 3)):
+            recs.append([''.join(rnd.choice(pool) for _ in range(rnd.randint(0, 4))), ' '.join(str(rnd.randint(-9, 9)) for _ in range(rnd.randint(1, 3))),
+                         ''.join(rnd.choice(pool) for _ in range(rnd.randint(0, 3)))])
+        cs.append({'kind': 'csv', 'records': recs, 'comment': rnd.choice([None, None, ord('#')])})
+    for k in range(16 if tier == 'quick' else 80):
+        raw = 'word,weights,comment\n' + ''.join(rnd.choice(pool + [',', '\n', '"', 'x']) for _ in range(rnd.randint(0, 14)))
+        cs.append({'kind': 'csvraw', 'input': raw, 'comment': rnd.choice([None, ord('#')])})
+    return cs
+
+
+def validate_case(e0, progs, replay, case):
+    from models import m_csv
+    cfg = m_csv.CsvCfg()
+    cfg.comment = case.get('comment')
+
+    class F:
+        pass
+    if case['kind'] == 'csv':
+        f = F(); f.data = []
+        w = m_csv.CsvWriter(f, m_csv.CsvCfg())
+        w.header_written = True
+        m_csv.write_record(None, w, [[Int(x, 8) for x in n.encode()] for n in ('word', 'weights', 'comment')])
+        for r in case['records']:
+            m_csv.write_record(None, w, [[Int(x, 8) for x in fld.encode('utf-8')] for fld in r])
+        written = bytes(b.t for b in f.data)
+        op = {'op': 'csv_roundtrip', 'records': case['records']}
+    else:
+        written = case['input'].encode('utf-8')
+        op = {'op': 'csv_roundtrip', 'input': list(written)}
+    if case.get('comment') is not None:
+        op['comment'] = case['comment']
+    nat = replay.run([op])[0]
+    if 'panic' in nat or 'err' in nat:
+        return {'case': case, 'native': nat}
+    if case['kind'] == 'csv' and bytes(nat['written']) != written:
+        return {'case': case, 'what': 'writer model differs from the csv crate', 'model': written.decode('utf-8', 'replace'), 'native': bytes(nat['written']).decode('utf-8', 'replace')}
+    recs = m_csv.parse_records(None, cfg, [Int(x, 8) for x in written])
+    hdr = recs[0] if recs else None
+    got = []; error = None
+    for rec in recs[1:]:
+        if len(rec) != len(hdr):
+            error = 'unequal'; break
+        try:
+            cols = [bytes(b.t for b in fld).decode('utf-8') for fld in rec]
+        except UnicodeDecodeError:
+            error = 'utf8'; break
+        names = [bytes(b.t for b in h).decode('utf-8', 'replace') for h in hdr]
+        if any(n not in names for n in ('word', 'weights', 'comment')):
+            error = 'missing'; break
+        got.append([cols[names.index(n)] for n in ('word', 'weights', 'comment')])
+    if got != nat['records'] or (error is None) != (nat['error'] is None):
+        return {'case': case, 'what': 'reader model differs from the csv crate', 'model': got, 'model_error': error, 'native': nat['records'], 'native_error': nat['error']}
+    return None
